@@ -10,8 +10,7 @@
     exactly the pen (contents, not wide, no continuation), the cursor advances by one, and nothing
     else in the grid changes (whole-record equality).
   * `cell_set_spec` : what `Cell::set` stores: the UTF-8 bytes, `wide` iff width 2, the pen.
-  The wrap decision, the wide/half-destroying and zero-width cases (`text_spec` of DESIGN §6.5)
-  are in progress.
+  The general closed forms — every well-formed line, the wrap, zero-width characters — are in C05b.
 -/
 import Vt.Lemmas.Inv
 namespace Vt.C05
